@@ -29,14 +29,43 @@ TECHNIQUE = "finite truth-table evaluation + normalised comparison of accumulato
 FIXTURE_EXPECT = ["c10.div"]
 
 
+def check_enum_tables(ctx, prog, rule="c10.orient"):
+    """a constant array of orientation classes that drives a loop must list all nine classes (a missing class silently drops its windows)"""
+    oa = prog.adt("bemodel::types::common::Orientation")
+    allv = [v["name"] for v in oa["variants"]]
+    n = 0
+    for f in sorted(prog.fns.values(), key=lambda f: f.id):
+        if f.kind not in ("const", "assocconst", "static") or f.crate != "bemodel":
+            continue
+        ty = f.body.local_ty(0)
+        if "Orientation;" not in ty.replace(" ", "").replace("types::common::", "") and not ty.replace(" ", "").startswith("[types::common::Orientation;"):
+            continue
+        rns = returned_nodes(f.body)
+        vals = []
+        for _, rn in rns:
+            for x in walk(rn):
+                if x[0] == "agg" and x[1].startswith("bemodel::types::common::Orientation::") or (x[0] == "agg" and "Orientation::" in x[1] and not x[3]):
+                    vals.append(x[1].split("::")[-1])
+        n += 1
+        missing = [v for v in allv if v not in vals]
+        key = "%s|%s" % (rule, f.path)
+        if missing and vals:
+            ctx.violation(rule, key, "%s lists the orientation classes %s but not %s: code that iterates over it never sees windows of the missing class "
+                          "(HZ = skylights and windows in roofs or floors)" % (f.path.split("::")[-2] + "::" + f.path.split("::")[-1], vals, missing), f.loc())
+        elif vals:
+            ctx.ok(rule, key, "lists all %d orientation classes" % len(allv), f.loc())
+    return n
+
+
 def run(ctx):
     prog = ctx.prog
+    check_enum_tables(ctx, prog)
     f = prog.method("energy::indicators::qsoljul::QSolJulData", None, "from")
     root = Scope(prog, f)
     bt = [v["name"] for v in prog.adt("bemodel::types::common::BoundaryType")["variants"]]
     filt = [ch for (b, t, ch) in root.children() if ch.via[0] == "filter" and (ch.via[1].source_name() or "").endswith("props.windows")]
-    ctx.require(len(filt) == 1, "QSolJulData::from: window filter not found")
-    scope_table(ctx, "c10.scope", "c10.scope|windows", filt[0], ["is_tenv", "bounds"], {"bounds": bt},
+    ctx.require(len(filt) >= 1, "QSolJulData::from: window filter not found")
+    scope_table(ctx, "c10.scope", "c10.scope|windows", filt, ["is_tenv", "bounds"], {"bounds": bt},
                 lambda a: a["is_tenv"] and a["bounds"] in ("EXTERIOR", "GROUND"), f.loc())
     ups = updates(root)
     byd = {}
@@ -123,6 +152,9 @@ def run(ctx):
     # D1/D2 inheritance in EnergyProps::from
     ep = prog.method("energy::props::EnergyProps", "convert::From", "from")
     esc = Scope(prog, ep)
+    # the `is_tenv` this indicator filters on is the envelope membership of the statement (the truth table C11 decides, evaluated here too)
+    from .c11 import check_envelope_membership
+    check_envelope_membership(ctx, prog, ep, esc, rule="c10.scope")
     wl = [(sc, sc.rvalue(s["rv"]), s.get("ln")) for sc in esc.all_scopes() for b, i, s in sc.body.statements()
           if s["s"] == "assign" and s["rv"]["r"] == "agg" and s["rv"].get("adt", "").endswith("props::WinProps")]
     ctx.require(len(wl) == 1, "WinProps literal not found")
